@@ -955,12 +955,10 @@ class Engine:
                     if t not in work:
                         work.append(t)
         # exit facts: intersection over normal-return predecessors of the exit block
-        ex = None
-        for p in g.pred[g.exit]:
-            if p in g.reach and (p, g.exit) in edge_out and p not in g.throws:
-                s = edge_out[(p, g.exit)]
-                ex = set(s) if ex is None else (ex & s)
-        res = frozenset(ex) if ex is not None else None
+        exits = [edge_out[(p, g.exit)] for p in g.pred[g.exit]
+                 if p in g.reach and (p, g.exit) in edge_out and p not in g.throws]
+        # the same semantic must-merge as at any join (a fact of one returning path that every other one entails survives)
+        res = frozenset(self._merge(exits)) if exits else None
         self.memo[key] = res
         self.observing = want_observe
         if want_observe:
